@@ -301,7 +301,7 @@ def view_box(draw, square_bias=True):
 
 
 @st.composite
-def source_model(draw, palette, library=None, vb=None, max_shapes=6, solid_only=False, allow_groups=True, p_grad=0.4, place_classes=None, lib_prob=0.6):
+def source_model(draw, palette, library=None, vb=None, max_shapes=6, solid_only=False, allow_groups=True, p_grad=0.4, place_classes=None, lib_prob=0.6, paint_lib=None):
     vb = vb or draw(view_box())
     n = draw(st.integers(1, max_shapes))
     nodes = []
@@ -326,7 +326,10 @@ def source_model(draw, palette, library=None, vb=None, max_shapes=6, solid_only=
             k, m = draw(placement(vb, "translate" if has_arc(unit) else draw(st.sampled_from(["translate", "rotate", "nuscale", "translate_far"]))))
             cmds = transform_cmds(unit, m)
             tag = "fresh"
-        fill = draw(paint_st(palette, cmds_bbox(cmds), solid_only, p_grad))
+        if paint_lib and not solid_only and draw(st.sampled_from([False] * 5 + [True])):
+            fill = paint_lib[draw(st.integers(0, len(paint_lib) - 1))]  # the very same gradient in several glyphs
+        else:
+            fill = draw(paint_st(palette, cmds_bbox(cmds), solid_only, p_grad))
         nodes.append({"t": "p", "d": cmds, "fill": fill, "op": draw(opacity_st), "tag": tag})
     if allow_groups and len(nodes) >= 2 and draw(st.integers(0, 3)) == 0:
         # wrap a run of >= 2 consecutive nodes into an opacity group (possibly nested once more)
